@@ -146,3 +146,50 @@ def enum_two_modules_closed() -> bool:
 
 
 EXPLAIN['enum_two_modules_closed'] = lambda: ' ; '.join(TWO_NOTES[:3])
+
+
+# ---------------------------------------------------------------- cast forms through the pipeline
+CAST_FORMS = ['int("12", 8) + 0', 'int("12", base=8)', 'str(1, 2)', 'int(x=1)', 'int()', 'str()', 'str("""a""")', 'str(r"a")', 'str(b"a")', "str('a')", 'str("a")', 'int("7")', 'int(" 12 ")', 'int("1_0")', 'int("+5")', 'int("-5")',
+	'int("0x1f", 16)', 'int("a")', 'float("1.5")', 'float("1e3")', 'float(" 2.5 ")', 'float(3)', 'int(1.9)', 'int(-1.5)', 'str(12)', 'str(-0)', 'str(0x10)', 'str(1.5)', 'str(1.0)', 'str(1e20)', 'str(7 / 2)',
+	'str("a" + "b")', 'int(str(12))', 'float(str(1.5))', 'str(int("3"))', 'int("3") + int("4")', 'str("it\'s")', 'str("say \\"hi\\"")', 'int(float("2.5"))']
+CAST_NOTES: list = []
+
+
+def cast_forms_closed() -> bool:
+	import re
+	from tv import driver
+	from rogw.tranp.errors import Errors
+	del CAST_NOTES[:]
+	for e in CAST_FORMS:
+		cover('member')
+		try:
+			want = ('value', eval(e))  # noqa: S307  fixed pool
+		except Exception:  # noqa: BLE001
+			want = ('raises',)
+		source = f'from enum import Enum\n\nclass E(Enum):\n\tA = {e}\n\ndef f() -> None:\n\tprint(E.A.value)\n'
+		try:
+			text = driver.transpile(source)
+		except Errors.Error:
+			cover('refused')
+			continue
+		except Exception as ex:  # noqa: BLE001
+			CAST_NOTES.append(f'{e}: {type(ex).__name__} escapes')
+			continue
+		found = re.search(r'printf\((.*)\);', text)
+		if not found:
+			CAST_NOTES.append(f'{e}: no folded literal in {text[-120:]!r}')
+			continue
+		try:
+			got = eval(found.group(1))  # noqa: S307  a numeric / string literal
+		except Exception:  # noqa: BLE001
+			CAST_NOTES.append(f'{e}: folded to {found.group(1)!r}, which is not a literal')
+			continue
+		cover('value')
+		if want[0] == 'raises':
+			CAST_NOTES.append(f'{e}: folded to {found.group(1)!r} although CPython raises')
+		elif type(got) is not type(want[1]) or got != want[1]:
+			CAST_NOTES.append(f'{e}: folded to {found.group(1)!r}, CPython gives {want[1]!r}')
+	return ok(not CAST_NOTES)
+
+
+EXPLAIN['cast_forms_closed'] = lambda: ' ; '.join(CAST_NOTES[:5])
